@@ -655,3 +655,114 @@ class ParseDecimal(Job):
 
 JOBS["C27"] = [ParseDecimal(False, (0, 1, 2, 3, 4, 5), (0, 1, 2, 3, 4, 5, 6, 7)),
                ParseDecimal(True, (0, 1, 2, 3, 4, 5), (0, 1, 2, 3, 4, 5, 6, 7))]
+
+
+# =====================================================================================================
+# C28: integer non-fungible local ids are accepted only in canonical decimal form (string model)
+# =====================================================================================================
+class ParseIntegerLocalId(Job):
+    case_keys = ("len",)
+    crate = "radix-common"
+    query_timeout_s = 60
+    max_unroll = 40
+
+    def __init__(self):
+        self.name = "c28m::non_fungible_local_id_from_str_integer_form"
+        self.what = ("NonFungibleLocalId::from_str on every ASCII string of length 0..=6 (quick) / 0..=8 (thorough) that "
+                     "does not start with '<', '[' or '{' (those forms are outside this job): accepted exactly when the "
+                     "text is '#' + a canonical decimal integer ('0', or a non-zero digit followed by digits) + '#', and "
+                     "then the id is that integer; everything else is an error; never panics")
+        self.cover_labels = ["accepted", "leading zero rejected", "unknown type", "zero accepted"]
+
+    def cases(self, tier):
+        return [{"len": n} for n in (range(9) if tier == "thorough" else range(7))]
+
+    def locate(self, prog):
+        return find_function(prog, "model/non_fungible_local_id.rs", "from_str", param_types=["&str"])
+
+    def inputs(self):
+        n = self.case["len"]
+        inp, pre = {}, []
+        for i in range(n):
+            b = z3.Int("b%d" % i)
+            inp["b%d" % i] = b
+            pre += [b >= 0, b <= 127]
+        if n:
+            pre += [inp["b0"] != 60, inp["b0"] != 91, inp["b0"] != 123]
+        return inp, pre
+
+    def _bytes(self, inp):
+        return [lit(inp["b%d" % i]) for i in range(self.case["len"])]
+
+    def args(self, inp):
+        return [StrSymV(self._bytes(inp))]
+
+    def extract(self, v):
+        ok = v.discr == 0
+        val = z3.IntVal(0)
+        if v.variants.get(0) and v.variants[0][0].kind == "enum":
+            idv = v.variants[0][0]
+            # NonFungibleLocalId::Integer(IntegerNonFungibleLocalId(u64)) is variant 1
+            p = idv.variants.get(1)
+            if p and p[0].kind == "struct":
+                val = p[0].fields[0].term
+            ok = z3.And(ok, idv.discr == 1)
+        return {"some": ok, "val": z3.If(ok, val, 0)}
+
+    def native(self, nat, vals):
+        hx = "".join("%02x" % int(vals["b%d" % i]) for i in range(self.case["len"]))
+        t = nat.call("nfid_from_str", hx).split()
+        if t[0] == "panic":
+            return {"panic": True, "msg": " ".join(t[1:])}
+        if t[0] == "ok":
+            return {"panic": False, "some": True, "val": int(t[1])}
+        return {"panic": False, "some": False, "val": 0}
+
+    def post(self, inp, res):
+        bs = self._bytes(inp)
+        n = len(bs)
+        ok, v = lit(res["some"]), lit(res["val"])
+        if n < 3:
+            return [("too short to be an integer id: rejected", z3.Not(ok))]
+        ds = bs[1:-1]
+        dig = [z3.And(d >= 48, d <= 57) for d in ds]
+        canon = z3.And(bs[0] == 35, bs[-1] == 35, z3.And(dig),
+                       z3.Or(z3.And(len(ds) == 1, ds[0] == 48), ds[0] != 48))
+        val = z3.IntVal(0)
+        for d in ds:
+            val = val * 10 + (d - 48)
+        return [("accepted exactly when the text is # canonical-integer #", ok == canon),
+                ("the id is exactly that integer", z3.Implies(ok, v == val))]
+
+    def covers(self, inp, res):
+        bs = self._bytes(inp)
+        ok = lit(res["some"])
+        if len(bs) < 3:
+            return []
+        return [("accepted", z3.And(ok, lit(res["val"]) > 9)), ("leading zero rejected", z3.And(z3.Not(ok), bs[0] == 35, bs[-1] == 35, bs[1] == 48,
+                                                                                         z3.And([z3.And(d >= 48, d <= 57) for d in bs[1:-1]]))),
+                ("unknown type", z3.And(z3.Not(ok), bs[0] != 35)), ("zero accepted", z3.And(ok, lit(res["val"]) == 0))]
+
+    def vectors(self, rng):
+        texts = ["", "#", "##", "#0#", "#1#", "#01#", "#10#", "#00#", "#+1#", "#-1#", "#1 #", "# 1#", "#12345#", "#1a#", "abc", "1",
+                 "#1", "1#", "#9#", "#007#", "#1_0#", "#١#"[:3], "##1#", "#1##"]
+        out = []
+        for t in texts:
+            t = t.encode("ascii", "ignore").decode()
+            if len(t) > 8 or (t and t[0] in "<[{"):
+                continue
+            d = {"len": len(t)}
+            for i, ch in enumerate(t):
+                d["b%d" % i] = ord(ch)
+            out.append(d)
+        for _ in range(15):
+            n = rng.randrange(3, 8)
+            d = {"len": n, "b0": 35}
+            for i in range(1, n - 1):
+                d["b%d" % i] = rng.choice([48, 49, 53, 57, 43, 45, 32, 97])
+            d["b%d" % (n - 1)] = rng.choice([35, 35, 48])
+            out.append(d)
+        return out
+
+
+JOBS["C28"] = [ParseIntegerLocalId()]
